@@ -107,6 +107,9 @@ impl Prover for Vampire {
     }
 
     fn prove(&self, problem: Problem) -> Result<Self::Report, Self::Error> {
+        #[cfg(feature = "verif")]
+        crate::verif::prover_fault("before", &problem.name);
+
         let start_time = Instant::now();
 
         let mut child = Command::new("vampire")
@@ -132,6 +135,9 @@ impl Prover for Vampire {
             .wait_with_output()
             .map_err(VampireError::Wait)?
             .try_into()?;
+
+        #[cfg(feature = "verif")]
+        crate::verif::prover_fault("after", &problem.name);
 
         Ok(VampireReport {
             problem,
